@@ -584,7 +584,7 @@ func checkC10(c *Ctx) error {
 					c.Ev.Distinct(fmt.Sprintf("%s|mode%d", lc.Lox, mi))
 				}
 			}
-			if i == 0 {
+			if c.Ev.WantSample() {
 				c.Ev.Sample(map[string]any{"lox": lc.Lox, "modes": len(modes), "states_mode0": len(modes[0].States)})
 			}
 		}
